@@ -16,6 +16,7 @@ Every type is interpreted as a `Codec` (the six entry points the Rust traits giv
 Names in comments are the Rust names.
 -/
 import SwimVerif.Model.Util
+import SwimVerif.Generated.FormConsts
 
 namespace SwimVerif.Form
 
@@ -159,7 +160,8 @@ single item `Extant` (how a delegated `None` is written; accepted since the repa
 def optDecBody (c : Codec) (attrs : List Attr) (items : List Item) : Option Inst :=
   match attrs, items with
   | [], [] => some .none
-  | [], [(none, .extant)] => some .none
+  | [], [(none, .extant)] =>
+    if Generated.emptyBodyAcceptsExtant then some .none else (c.decBody attrs items).map .some
   | _, _ => (c.decBody attrs items).map .some
 
 def optCodec (c : Codec) : Codec where
